@@ -87,7 +87,17 @@ def _tag_mutations(ctx, f):
         if isinstance(recv, ast.Subscript) and isinstance(
             recv.value, ast.Attribute) and (
                 recv.value.attr == '__argument_tags__'):
-          out.append((n, e, unparse(recv.value.value), unparse(recv.slice)))
+          out.append((n, e, unparse(recv.value.value), unparse(recv.slice),
+                      e.func.attr))
+    # X.__argument_tags__[k] = <set> / |= ... replaces or updates the set
+    st = g.stmt[n]
+    targets = (st.targets if isinstance(st, ast.Assign) else
+               [st.target] if isinstance(st, (ast.AugAssign, ast.AnnAssign))
+               else [])
+    for t in targets:
+      if isinstance(t, ast.Subscript) and isinstance(
+          t.value, ast.Attribute) and t.value.attr == '__argument_tags__':
+        out.append((n, st, unparse(t.value.value), unparse(t.slice), 'store'))
   return g, out
 
 
@@ -105,7 +115,7 @@ def run(ctx: Ctx, rs: RuleSet, tier: str):
       if f.is_lambda:
         continue
       g, muts = _tag_mutations(ctx, f)
-      for n, e, root, key in muts:
+      for n, e, root, key, how in muts:
         if root not in f.params:
           continue  # receiver is not a caller-visible parameter (fresh copy)
         logs = set()
@@ -121,7 +131,7 @@ def run(ctx: Ctx, rs: RuleSet, tier: str):
         succ = [x for x, lab in g.succ[n] if lab != 'exc']
         r = g.reach(succ, blocked=logs, labels=cfg_lib.NO_EXC)
         ok = bool(logs) and g.exit not in r
-        rs.check(ok, rule, f'{f.qualname}:{e.func.attr}[{key}]',
+        rs.check(ok, rule, f'{f.qualname}:{how}[{key}]',
                  f'`{unparse(e)[:70]}` is followed on every path by '
                  f'add_updated_tags({key}, {root}.__argument_tags__[{key}])'
                  if ok else
